@@ -101,6 +101,18 @@ MUTATIONS = {
         [("flox/core.py", "@memoize\ndef _get_optimal_chunks_for_groups(chunks, labels):\n",
           "_OC_CACHE = {}\n\n\ndef _get_optimal_chunks_for_groups(chunks, labels):\n    key = (tuple(chunks), labels.shape, int(labels[-1]))\n    if key not in _OC_CACHE:\n        _OC_CACHE[key] = _get_optimal_chunks_for_groups_(chunks, labels)\n    return _OC_CACHE[key]\n\n\ndef _get_optimal_chunks_for_groups_(chunks, labels):\n")],
     ),
+    "quantile_no_size_decrement": (
+        ["C18"],
+        [("flox/aggregate_flox.py", "    actual_sizes -= 1\n    virtual_index = q * actual_sizes", "    virtual_index = q * actual_sizes")],
+    ),
+    "quantile_allnan_fix_reverted": (
+        ["C18"],
+        [("flox/aggregate_flox.py", "        allnanmask = actual_sizes < 0\n", "        allnanmask = actual_sizes < -1\n")],
+    ),
+    "quantile_lerp_branch_removed": (
+        ["C18"],
+        [("flox/aggregate_flox.py", "    np.subtract(b, diff_b_a * (1 - t), out=out, where=t >= 0.5)\n", "")],
+    ),
     "nanmin_combine_min": (
         ["C04"],
         [("flox/aggregations.py", '    chunk="nanmin",\n    combine="nanmin",', '    chunk="nanmin",\n    combine="min",')],
